@@ -18,7 +18,8 @@ EXPLANATION = (
     "into a get_hash/_calc_hash of the Value hierarchy, raw pickle.dump(s) is reachable only through redun.utils.pickle_dump(s) with the "
     "constant PICKLE_PROTOCOL; C16.4 for every Value class, the resolved get_hash either ignores its pre-serialised `data` argument or falls "
     "back, when it is None, to exactly the expression its resolved serialize() returns, so the shortcut backends use (get_hash(data=serialize())) "
-    "cannot change the hash."
+    "cannot change the hash; "
+    "C16.5 the sort that canonicalises a set/frozenset uses a key that is total and process-independent (e.g. the elements' registry hashes), not the elements' own `<`."
 )
 
 VALUE = "redun/value.py"
@@ -32,6 +33,7 @@ def run(ctx):
     proxy = vm.cls("ProxyValue")
 
     r1 = ctx.rule("C16.1", "each builtin unordered type has a sorting ProxyValue", floor=2)
+    r1b = ctx.rule("C16.5", "the canonical element order of a set is total and process-independent", floor=2)
     proxies = {}
     for m, c in repo.subclasses(proxy, strict=True):
         for st in c.body:
@@ -58,6 +60,20 @@ def run(ctx):
                 if call_name(call) == "sorted" and call.args and src(call.args[0]) == "self.instance":
                     ok = True
         r1.check(ok, f"{m.rel}:{c.name}.get_hash:sorted", f"the proxy for `{t}` does not serialise sorted(self.instance)", m.rel, c.lineno)
+        # the order must come from a total, process-independent key: the elements' own `<` is only a partial order for sets/frozensets
+        # (sorted() then returns an order that depends on the iteration order) and is undefined between unrelated types
+        if ok:
+            sc = next(call for call in calls_in(res[2]) if call_name(call) == "sorted" and call.args and src(call.args[0]) == "self.instance")
+            key = kwarg(sc, "key")
+            canonical_key = key is not None and any(w in src(key) for w in ("get_hash", "hash_", "pickle_dumps", "repr"))
+            r1b.check(
+                canonical_key,
+                f"{m.rel}:{c.name}.get_hash:sort-key",
+                f"`{src(sc)}` orders the elements by their own `<`: for elements that are themselves sets/frozensets this is the subset partial order, so the sorted order -- and the hash -- "
+                "depends on the iteration order (PYTHONHASHSEED / insertion order); for elements of unrelated types (e.g. {1, 'a'}) it raises TypeError",
+                m.rel,
+                sc.lineno,
+            )
 
     r2 = ctx.rule("C16.2", "default container hash canonicalises nested unordered containers", floor=1)
     gh = vm.func("ProxyValue.get_hash")
